@@ -1,4 +1,5 @@
 import ScrapliProps.C16Lemmas
+import ScrapliProps.C16ParseLemmas
 /-
   C16 — SSH config and known_hosts lookups return that host's entry and only that.
   Property theorems only (helper lemmas: C16Lemmas.lean; specification: ScrapliModel/Spec/SSHLookup.lean).
@@ -675,5 +676,85 @@ example : khLookup exHM (khBuild exKH) ['h', '3'] = .ok (some (['r', 's', 'a'], 
     khLookup exHM (khBuild exKH) ['h', '1', '0'] = .ok (some (['e', 'd'], ['B'])) ∧
     khLookup exHM (khBuild exKH) ['h'] = .ok none := by
   refine ⟨by rfl, by rfl, by rfl⟩
+
+
+/-! ## the TEXT PARSERS (ScrapliModel/SSHConfigParse.lean): from the file text to the entries the theorems above start from -/
+
+/-- the flags, option keywords and value shapes the hand-written parser model was written for (generated from the live
+    source; the regex source TEXTS are generated too but deliberately not pinned here — a respelled but equivalent regex
+    must not break the proof; what a regex DOES is tied by the correspondence on texts) -/
+theorem gen_parser_is_modelled :
+    hostBlockFlags = ["DOTALL", "IGNORECASE", "MULTILINE"] ∧
+    optKeywords.map (·.1) = ["hosts", "hostname", "port", "user", "identities_only", "identity_file"] ∧
+    optKeywords.map (·.2) = [hostKw, hostKw ++ ['n', 'a', 'm', 'e'], ['p', 'o', 'r', 't'], ['u', 's', 'e', 'r'],
+      ['i', 'd', 'e', 'n', 't', 'i', 't', 'i', 'e', 's', 'o', 'n', 'l', 'y'], ['i', 'd', 'e', 'n', 't', 'i', 't', 'y', 'f', 'i', 'l', 'e']] ∧
+    kindOf "hosts" = .rest ∧ kindOf "identities_only" = .alts [['y', 'e', 's'], ['n', 'o']] ∧
+    (∃ c, kindOf "port" = .plus c ∧ c = ['0', '1', '2', '3', '4', '5', '6', '7', '8', '9']) ∧
+    (∃ c, kindOf "user" = .star c) ∧ (∃ c, kindOf "hostname" = .star c) ∧ (∃ c, kindOf "identity_file" = .star c) ∧
+    khLineFlags = ["IGNORECASE", "MULTILINE"] ∧
+    khTy '\n' = false ∧ khTy ' ' = false ∧ khTy '\t' = false ∧ khTy '-' = true ∧ khTy '@' = true ∧ khTy '.' = true := by
+  refine ⟨by decide, by decide, by decide, by decide, by decide, ⟨_, rfl, by decide⟩, ⟨_, rfl⟩, ⟨_, rfl⟩, ⟨_, rfl⟩,
+    by decide, by decide, by decide, by decide, by decide, by decide, by decide⟩
+
+/-- **known_hosts print/parse round trip**: for EVERY list of source lines — key lines in any legal spelling
+    (indentation, runs of blanks / tabs between the fields, a trailing comment field) interleaved with any number of
+    blank lines, `#` comments and `@revoked` / `@cert-authority` marker lines — that satisfies the decidable
+    well-formedness predicate `KSrc.wf`, the model of `SSHKnownHosts._parse` applied to the rendered TEXT yields exactly
+    the (host field, key type, key) triples written in the file, in order; comment and marker lines contribute nothing. -/
+theorem known_hosts_parse_roundtrip (ls : List KSrc) (h : ∀ l ∈ ls, l.wf = true) :
+    khParse (khRender ls) = ls.filterMap KSrc.meaning := khParse_render ls h
+
+/-- hence, END TO END from the file text: a key returned for `name` by a lookup on the text is the key of a written line
+    that records `name` (`known_hosts_exact` composed with the round trip) — never one of a marker or comment line -/
+theorem known_hosts_text_exact (hm : Str → Str → Str → Option Bool) (ls : List KSrc) (h : ∀ l ∈ ls, l.wf = true)
+    (name : Str) (v : Str × Str) (hv : khLookupText hm (khRender ls) name = .ok (some v)) :
+    ∃ l ∈ ls, ∃ kl, l.meaning = some kl ∧ Records hm kl name ∧ kl.val = v := by
+  unfold khLookupText at hv
+  rw [khParse_render ls h] at hv
+  obtain ⟨kl, hkl, hr, hval⟩ := known_hosts_exact hm _ name v hv
+  obtain ⟨l, hl, hm'⟩ := List.mem_filterMap.mp hkl
+  exact ⟨l, hl, kl, hm', hr, hval⟩
+
+/-- ... and a host listed literally on a written key line always gets a recorded key, from the text, whatever blank /
+    comment / marker lines and spellings the file contains -/
+theorem known_hosts_text_plain_found (hm : Str → Str → Str → Option Bool) (ls : List KSrc) (h : ∀ l ∈ ls, l.wf = true)
+    (name : Str) (hn : ∃ l ∈ ls, ∃ kl, l.meaning = some kl ∧ name ∈ splitOn ',' kl.host) :
+    ∃ v, khLookupText hm (khRender ls) name = .ok (some v) ∧
+      ∃ l ∈ ls, ∃ kl, l.meaning = some kl ∧ name ∈ splitOn ',' kl.host ∧ kl.val = v := by
+  obtain ⟨l, hl, kl, hm', hmem⟩ := hn
+  obtain ⟨v, hv, kl', hkl', h1, h2⟩ := known_hosts_plain_found hm (ls.filterMap KSrc.meaning) name
+    ⟨kl, List.mem_filterMap.mpr ⟨l, hl, hm'⟩, hmem⟩
+  refine ⟨v, by unfold khLookupText; rw [khParse_render ls h]; exact hv, ?_⟩
+  obtain ⟨l', hl', hm''⟩ := List.mem_filterMap.mp hkl'
+  exact ⟨l', hl', kl', hm'', h1, h2⟩
+
+/-- non-vacuity: a file with an indented key line with tabs and a comment field, a comment that looks like a key line,
+    a revoked key for the same host and a blank line is well-formed; the revoked key is not what the lookup returns -/
+def exKSrc : List KSrc :=
+  [.skip "# sw1 ssh-rsa OLD".toList, .skip "@revoked sw1 ssh-rsa BAD".toList,
+   .entry [' '] "sw1,10.0.0.1".toList ['\t', ' '] "sk-ssh-ed25519@openssh.com".toList [' '] "AAAA".toList " root@bastion".toList,
+   .skip []]
+example : (∀ l ∈ exKSrc, l.wf = true) ∧
+    khLookupText (fun _ _ _ => some false) (khRender exKSrc) "sw1".toList =
+      .ok (some ("sk-ssh-ed25519@openssh.com".toList, "AAAA".toList)) := ⟨by decide, by rfl⟩
+
+
+/-- **lookup from the file TEXT never raises once the file parsed**: for EVERY text, name and `expanduser` function, either
+    the text parser itself fails (the only way: shlex's ValueError on an unbalanced quote / dangling backslash in a Host
+    line, e.g. `Host 'a`), or `SSHConfig(text).lookup(name)` returns a Host — `lookup_total_full` composed with the parser -/
+theorem lookup_text_total (expand : Str → Str) (text name : Str) :
+    (∃ r, lookupText expand [] text name = .ok r) ∨ (∃ e, parseCfg expand text = .error e) := by
+  cases hp : parseCfg expand text with
+  | error e => exact Or.inr ⟨e, rfl⟩
+  | ok parsed =>
+    obtain ⟨r, hr⟩ := lookup_total_full parsed name
+    exact Or.inl ⟨r, by simp [lookupText, hp, bind, Except.bind, hr]⟩
+
+/-- the failing branch is real (replayed on the real code by the correspondence: `Host 'a` makes `SSHConfig(path)` raise
+    ValueError), and a well-formed text goes through the parser to the entry written in it -/
+example : parseCfg id "Host 'a\n".toList = .error .valueError := by rfl
+example : lookupText id [] "# c\n  hOsT =  sw1 sw2 # x\n\tPORT=22\n  IdentityFile ~/.ssh/k\n\nHost *\n User u\n".toList "sw2".toList =
+    .ok { hosts := "sw1 sw2".toList, hostname := .none,
+          attrs := [.int 22, .str "u".toList, .none, .none, .none, .none, .str "~/.ssh/k".toList, .none, .none, .none] } := by rfl
 
 end Scrapli.SSHConfig
